@@ -50,6 +50,7 @@ func init() {
 		vpkg + "ConcreteU64": func(fr *frame, a []value) value { return uint64(fr.in.concInt(a[0])) },
 		vpkg + "ConcreteBool": func(fr *frame, a []value) value { return fr.in.truth(a[0]) },
 		vpkg + "Par":      func(fr *frame, a []value) value { fr.in.par(fr, a[0].([]value)); return nil },
+		vpkg + "Interleave": func(fr *frame, a []value) value { fr.in.interleave(fr, a[0], a[1]); return nil },
 		vpkg + "Yield":    func(fr *frame, a []value) value { fr.in.yield(); return nil },
 		vpkg + "Param": func(fr *frame, a []value) value {
 			if x, ok := fr.in.x.cfg.Params[str(a[0])]; ok {
@@ -64,12 +65,12 @@ func init() {
 		vpkg + "ErrIs":    vErrIs,
 
 		// sync
-		"(*sync.Mutex).Lock":      func(fr *frame, a []value) value { fr.in.lock(a[0].(*value)); return nil },
+		"(*sync.Mutex).Lock":      func(fr *frame, a []value) value { fr.in.lock(fr, a[0].(*value)); return nil },
 		"(*sync.Mutex).Unlock":    func(fr *frame, a []value) value { fr.in.unlock(a[0].(*value)); return nil },
 		"(*sync.Mutex).TryLock":   func(fr *frame, a []value) value { unsupported("TryLock"); return nil },
-		"(*sync.RWMutex).Lock":    func(fr *frame, a []value) value { fr.in.lock(a[0].(*value)); return nil },
+		"(*sync.RWMutex).Lock":    func(fr *frame, a []value) value { fr.in.lock(fr, a[0].(*value)); return nil },
 		"(*sync.RWMutex).Unlock":  func(fr *frame, a []value) value { fr.in.unlock(a[0].(*value)); return nil },
-		"(*sync.RWMutex).RLock":   func(fr *frame, a []value) value { fr.in.rlock(a[0].(*value)); return nil },
+		"(*sync.RWMutex).RLock":   func(fr *frame, a []value) value { fr.in.rlock(fr, a[0].(*value)); return nil },
 		"(*sync.RWMutex).RUnlock": func(fr *frame, a []value) value { fr.in.runlock(a[0].(*value)); return nil },
 		"(*sync.WaitGroup).Add":   func(fr *frame, a []value) value { return nil },
 		"(*sync.WaitGroup).Done":  func(fr *frame, a []value) value { return nil },
@@ -89,7 +90,7 @@ func init() {
 		// runtime / misc
 		"runtime.Caller":     func(fr *frame, a []value) value { return tuple{uintptr(0), "", 0, false} },
 		"runtime.Callers":    func(fr *frame, a []value) value { return 0 },
-		"runtime.Gosched":    func(fr *frame, a []value) value { fr.in.yield(); return nil },
+		"runtime.Gosched":    func(fr *frame, a []value) value { return nil },
 		"runtime.KeepAlive":  func(fr *frame, a []value) value { return nil },
 		"github.com/pingcap/errors.callers": func(fr *frame, a []value) value { return (*value)(nil) },
 		"github.com/pingcap/errors.callersSkip": func(fr *frame, a []value) value { return (*value)(nil) },
@@ -541,13 +542,17 @@ func syncOnceDo(fr *frame, a []value) value {
 
 // atomic.Value is struct{ v any }
 func atomicValueLoad(fr *frame, a []value) value {
-	fr.in.yield()
+	if schedEligible(fr) {
+		fr.in.yield()
+	}
 	p := a[0].(*value)
 	return (*p).(structure)[0]
 }
 
 func atomicValueStore(fr *frame, a []value) value {
-	fr.in.yield()
+	if schedEligible(fr) {
+		fr.in.yield()
+	}
 	p := a[0].(*value)
 	if a[1].(iface).t == nil {
 		panic("sync/atomic: store of nil value into Value")
@@ -557,25 +562,21 @@ func atomicValueStore(fr *frame, a []value) value {
 }
 
 func atomicLoad(fr *frame, a []value) value {
-	fr.in.yield()
 	return *a[0].(*value)
 }
 
 func atomicStore(fr *frame, a []value) value {
-	fr.in.yield()
 	*a[0].(*value) = a[1]
 	return nil
 }
 
 func atomicAdd(fr *frame, a []value) value {
-	fr.in.yield()
 	p := a[0].(*value)
 	*p = fr.in.binop(token.ADD, nil, *p, a[1])
 	return *p
 }
 
 func atomicSwap(fr *frame, a []value) value {
-	fr.in.yield()
 	p := a[0].(*value)
 	old := *p
 	*p = a[1]
@@ -583,7 +584,6 @@ func atomicSwap(fr *frame, a []value) value {
 }
 
 func atomicCAS(fr *frame, a []value) value {
-	fr.in.yield()
 	p := a[0].(*value)
 	if fr.in.truth(fr.in.binop(token.EQL, types.Typ[types.Int64], *p, a[1])) {
 		*p = a[2]
